@@ -140,6 +140,14 @@ def run(module, cfg=None, *, workers=4, timeout=600, env=None, simulate=None, de
     return res
 
 
+def require_all_actions_taken(res, allow=()):
+    """vacuity control (DESIGN §6): with -coverage 1, an action of the next-state relation that was never taken means the
+    invariants were not exercised on it: machinery failure, not a verdict"""
+    zero = [a for a in coverage_zero_actions(res.out) if a not in allow and not a.startswith("Init") and not a.endswith("Init")]
+    if zero:
+        raise TLCError(f"vacuity: actions never taken in the model run: {zero}")
+
+
 def coverage_zero_actions(out):
     """Names of actions that -coverage 1 reports as never taken (vacuity control)."""
     zero = []
